@@ -30,14 +30,14 @@ AbsObj(post, assoc) ==
   IN [palg |-> AlgName(AlgOfBucket(post.P)),
       hasRaw |-> post.rawP # <<>>, ralg |-> (IF rp.ok THEN WireAlgName(rp.item) ELSE "none"), rwide |-> (IF rp.ok /\ rp.item.k = "bstr" THEN rp.item.w # 0 ELSE FALSE),
       ukid |-> ukid, hasRawU |-> post.rawU # <<>>, rukid |-> (IF ru.ok THEN KidOfWireMap(ru.item) ELSE 0),
-      payload |-> PayloadName(post.payload), sig |-> TermOf(post.sig, assoc)]
+      payload |-> (IF ObjKind = "sig" THEN "p1" ELSE PayloadName(post.payload)), sig |-> TermOf(post.sig, assoc)]
 AbsWire(b, assoc) ==
-  LET r == Body("sign1", b) IN
-  IF b = <<>> \/ ~r.ok \/ Len(r.item.xs) # 4 THEN NoWire
+  LET r == Body(ObjKind, b) n == IF ObjKind = "sig" THEN 3 ELSE 4 IN
+  IF b = <<>> \/ ~r.ok \/ Len(r.item.xs) # n THEN NoWire
   ELSE LET it == r.item IN
        MWire(WireAlgName(it.xs[1]), it.xs[1].k = "bstr" /\ it.xs[1].w # 0, KidOfWireMap(it.xs[2]),
-            IF it.xs[3] = Null THEN "nil" ELSE IF it.xs[3].k = "bstr" THEN PayloadName(it.xs[3].b) ELSE "other",
-            IF it.xs[4].k = "bstr" THEN TermOf(it.xs[4].b, assoc) ELSE Junk)
+            IF ObjKind = "sig" THEN "p1" ELSE IF it.xs[3] = Null THEN "nil" ELSE IF it.xs[3].k = "bstr" THEN PayloadName(it.xs[3].b) ELSE "other",
+            IF it.xs[n].k = "bstr" THEN TermOf(it.xs[n].b, assoc) ELSE Junk)
 \* fields that carry no information when no raw bytes are retained
 Norm(o) == [o EXCEPT !.ralg = IF o.hasRaw THEN o.ralg ELSE "none", !.rwide = o.hasRaw /\ o.rwide, !.rukid = IF o.hasRawU THEN o.rukid ELSE 0]
 
@@ -76,7 +76,9 @@ Walk(e, k, o, w, assoc, lastOut) ==
       signs == SelectSeq(obs.calls, LAMBDA c : c.call = "Sign" /\ c.reterr = "ok" /\ c.ret # <<>>)
       \* the term of a fresh signature: what the model says was signed (checked against the recorded signer input below)
       assoc2 == IF a.op = "sign" /\ Len(signs) = 1 THEN assoc \cup {<<signs[1].ret, MSig(a.key, MTbsOf(Step(o, w, a).obj, a.ext))>>} ELSE assoc
-      o2 == IF a.op = "rewire" THEN o ELSE AbsObj(obs.post, assoc2)
+      o2raw == IF a.op = "rewire" THEN o ELSE AbsObj(obs.post, assoc2)
+      \* a COSE_Signature has no payload of its own: the model's payload is the argument the caller passes
+      o2 == IF ObjKind = "sig" THEN [o2raw EXCEPT !.payload = IF a.op = "edit" /\ a.what = "payload" THEN a.vp ELSE o.payload] ELSE o2raw
       out2 == IF a.op \in {"marshal", "rewire"} /\ obs.res = "ok" /\ ~obs.outnil THEN obs.out ELSE lastOut
       w2 == AbsWire(out2, assoc2)
   IN (IF obs.res = "panic" THEN {"C06:panic"} ELSE Judge(a, o, w, obs.res, o2, w2))
